@@ -581,3 +581,15 @@ Fixpoint mismatches_from (i : nat) (hs : list history) : list (nat * nat) :=
       end
   end.
 Definition mismatches := mismatches_from 0.
+
+(** * The message level: MsgPlaceBid (types/msg.go ValidateBasic, keeper/msg_server.go) *)
+
+(* ValidateBasic: the auction id is not zero and the amount is a valid coin
+   (a valid denom, which the denoms of the model are, and a non-negative
+   amount).  The msg server then calls keeper.PlaceBid with the same arguments
+   (AccAddressFromBech32 cannot fail for the addresses of the model). *)
+Definition bid_validate_basic (id x : Z) : bool := negb (id =? 0) && (0 <=? x).
+
+Definition msg_place_bid (e : env) (s : state) (t id : Z) (bidder d : nat) (x : Z) (parts : list Z)
+  : outcome state unit :=
+  if bid_validate_basic id x then place_bid e s t id bidder d x parts else Err.
